@@ -400,6 +400,9 @@ func updateResolverN(count int, res Resolver, rels []UniRel) Resolver {
 	nrels := frt.Pipe(frt.Pipe(rels, (func(_r0 []UniRel) [][]UniRel {
 		return slice.Map((func(_r0 UniRel) []UniRel { return updateResOne(res, _r0) }), _r0)
 	})), slice.Concat)
+	frt.IfOnly((slice.Length(nrels) > 100000), (func() {
+		PanicNow("Too many unification relations, maybe cyclic type, give up")
+	}))
 	return frt.IfElse(slice.IsEmpty(nrels), (func() Resolver {
 		return res
 	}), (func() Resolver {
